@@ -131,7 +131,11 @@ def canon_world(w, extra=None):
     env = (tuple(sorted(tuple(sorted(x)) for x in w.cut)), tuple(sorted(w.stalled)),
            tuple(w.abs_ticks), c.walk(w.clock_t),
            tuple(sorted(w.start_behaviour.items())), tuple(sorted(w.stop_behaviour.items())),
-           tuple(sorted(w.budget.items())))
+           tuple(sorted(w.budget.items())),
+           tuple((k, c.walk(h['t1']), h['released'],
+                  c.walk([(a, v if a == 'ok' else type(v).__name__) for a, v in h['answers']]))
+                 for k, h in sorted(getattr(w, 'hung', {}).items())),
+           tuple((k, c.walk(h['t1']), c.walk(list(h['call']))) for k, h in sorted(getattr(w, 'lagging', {}).items())))
     mons = tuple(m.key(c) for m in w.monitors if hasattr(m, 'key'))
     structure, times = c.finish((parts, chans, env, mons, extra))
     return digest((structure, times))
